@@ -1,0 +1,34 @@
+// Copyright 2026 The Go Authors. All rights reserved.
+// Use of this source code is governed by a BSD-style
+// license that can be found in the LICENSE file.
+
+//go:build verif
+
+package websocket
+
+import "sync"
+
+// wioMutex is a mutual-exclusion lock whose waiters block on a channel operation
+// instead of a sync.Mutex.
+//
+// Conn.wio is held across writes to the underlying connection. When such a write
+// blocks (the peer is not reading), the goroutine that answers a PING waits for
+// the lock. A goroutine waiting for a sync.Mutex is not "durably blocked" for
+// testing/synctest, so a simulated connection with write back-pressure could
+// never quiesce; a goroutine blocked on a channel is.
+type wioMutex struct {
+	once sync.Once
+	ch   chan struct{}
+}
+
+func (m *wioMutex) init() { m.once.Do(func() { m.ch = make(chan struct{}, 1) }) }
+
+func (m *wioMutex) Lock() {
+	m.init()
+	m.ch <- struct{}{}
+}
+
+func (m *wioMutex) Unlock() {
+	m.init()
+	<-m.ch
+}
